@@ -12,7 +12,7 @@ use smoltcp::iface::{Config, Interface, Route, SocketHandle, SocketSet};
 use smoltcp::phy::Medium;
 use smoltcp::socket::udp;
 use smoltcp::time::Instant;
-use smoltcp::wire::{EthernetAddress, HardwareAddress, IpAddress, IpCidr, IpEndpoint, Ipv4Address, Ipv4Cidr};
+use smoltcp::wire::{EthernetAddress, HardwareAddress, IpAddress, IpCidr, IpEndpoint, Ipv4Address, Ipv4Cidr, Ipv6Address, Ipv6Cidr};
 use std::collections::HashMap;
 
 const MY_IP: [u8; 4] = [10, 0, 0, 1];
@@ -25,8 +25,56 @@ fn mac_of(ip: [u8; 4]) -> [u8; 6] {
 fn mac_s(m: &[u8]) -> String {
     m.iter().map(|b| format!("{:02x}", b)).collect::<Vec<_>>().join(":")
 }
+/// Addresses appear in the trace as 4-tuples.  In IPv6 runs the world uses fd00:0:0:P:A:B:C:D for the tuple (A,B,C,D)
+/// (P = 0 on-link, else another /64), so one monitor serves both families: multicast maps into 224/4, :: to 0.0.0.0.
 fn ipj(a: &[u8]) -> Value {
+    if a.len() == 16 {
+        if a[0] == 0xff {
+            return json!([224, 0, 0, a[15] as u64]);
+        }
+        if a.iter().all(|x| *x == 0) {
+            return json!([0, 0, 0, 0]);
+        }
+        return json!([a[9] as u64, a[11] as u64, a[13] as u64, a[15] as u64]);
+    }
     json!(a.iter().map(|x| *x as u64).collect::<Vec<u64>>())
+}
+fn a6(t: [u8; 4]) -> [u8; 16] {
+    let p = match t[0] {
+        10 => 0u8,
+        192 => 1,
+        _ => 2,
+    };
+    [0xfd, 0, 0, 0, 0, 0, 0, p, 0, t[0], 0, t[1], 0, t[2], 0, t[3]]
+}
+fn ip_of(t: [u8; 4], v6: bool) -> IpAddress {
+    if v6 {
+        IpAddress::Ipv6(Ipv6Address::from_octets(a6(t)))
+    } else {
+        IpAddress::v4(t[0], t[1], t[2], t[3])
+    }
+}
+fn icmp6(src: [u8; 16], dst: [u8; 16], body: Vec<u8>) -> Vec<u8> {
+    ipv6_packet(src, dst, 58, 255, &body, true)
+}
+/// neighbour advertisement (op 2) / solicitation (op 1) from a station, the IPv6 counterpart of `arp_reply`
+fn nd_msg(sha: [u8; 6], spa: [u8; 4], op: u16, dst_mac: [u8; 6]) -> Vec<u8> {
+    let me = a6(MY_IP);
+    if op == 2 {
+        let mut b = vec![136u8, 0, 0, 0, 0x60, 0, 0, 0];
+        b.extend_from_slice(&a6(spa));
+        b.extend_from_slice(&[2, 1]);
+        b.extend_from_slice(&sha);
+        eth_frame(dst_mac, if sha[0] & 1 == 0 { sha } else { mac_of(spa) }, 0x86dd, &icmp6(a6(spa), me, b))
+    } else {
+        let mut b = vec![135u8, 0, 0, 0, 0, 0, 0, 0];
+        b.extend_from_slice(&me);
+        b.extend_from_slice(&[1, 1]);
+        b.extend_from_slice(&sha);
+        // to our solicited-node group
+        let sn = [0xff, 2, 0, 0, 0, 0, 0, 0, 0, 0, 0, 1, 0xff, me[13], me[14], me[15]];
+        eth_frame([0x33, 0x33, 0xff, me[13], me[14], me[15]], sha, 0x86dd, &icmp6(a6(spa), sn, b))
+    }
 }
 
 struct SockCfg {
@@ -113,6 +161,77 @@ impl W {
             }
             0x86dd => {
                 v["et"] = json!("ip6");
+                if let Some(ip) = parse_ip(&f[14..]) {
+                    if let L4::Icmp6 { ty, body, csum_ok, .. } = &ip.l4 {
+                        if (*ty == 135 || *ty == 136) && body.len() >= 20 {
+                            // discovery: same abstract shape as ARP (op 1 request / op 2 reply)
+                            let mut lla: Option<Vec<u8>> = None;
+                            let mut o = 20;
+                            while o + 8 <= body.len() {
+                                let l = (body[o + 1] as usize) * 8;
+                                if l == 0 {
+                                    break;
+                                }
+                                if (body[o] == 1 || body[o] == 2) && l == 8 {
+                                    lla = Some(body[o + 2..o + 8].to_vec());
+                                }
+                                o += l;
+                            }
+                            v["et"] = json!("arp");
+                            v["op"] = json!(if *ty == 135 { 1 } else { 2 });
+                            v["sha"] = json!(lla.as_ref().map(|m| mac_s(m)).unwrap_or_else(|| "none".to_string()));
+                            v["shau"] = json!(lla.as_ref().map(|m| m[0] & 1 == 0).unwrap_or(false));
+                            v["spa"] = ipj(&ip.src);
+                            v["tha"] = json!("00:00:00:00:00:00");
+                            if *ty == 135 {
+                                v["tpa"] = ipj(&body[4..20]);
+                            } else {
+                                v["tpa"] = ipj(&ip.dst);
+                                v["spa2"] = ipj(&body[4..20]);
+                            }
+                            v["cs"] = json!(csum_ok);
+                            return v;
+                        }
+                    }
+                    v["et"] = json!("ip4");
+                    v["src"] = ipj(&ip.src);
+                    v["dst"] = ipj(&ip.dst);
+                    v["proto"] = json!(ip.proto);
+                    v["iplen"] = json!(ip.total_len);
+                    v["wf"] = json!(ip.wf);
+                    v["frag"] = json!(ip.mf || ip.frag_off > 0);
+                    v["did"] = json!(-1);
+                    if let L4::Udp { sport, dport, payload, csum_ok, .. } = &ip.l4 {
+                        v["l4"] = json!("udp");
+                        v["sport"] = json!(sport);
+                        v["dport"] = json!(dport);
+                        v["cs"] = json!(csum_ok);
+                        v["size"] = json!(payload.len());
+                        if payload.len() >= 4 {
+                            let did = u32::from_be_bytes([payload[0], payload[1], payload[2], payload[3]]);
+                            if self.sizes.contains_key(&did) {
+                                let exp = dgram_payload(did, payload.len());
+                                let pd = payload.iter().zip(exp.iter()).position(|(a, b)| a != b).map(|x| x as i64).unwrap_or(-1);
+                                v["did"] = json!(did);
+                                v["pd"] = json!(pd);
+                                v["osize"] = json!(self.sizes[&did]);
+                            }
+                        }
+                    } else if let L4::Icmp6 { ty, code, csum_ok, .. } = &ip.l4 {
+                        v["l4"] = json!("icmp");
+                        v["ty"] = json!(ty);
+                        v["code"] = json!(code);
+                        v["cs"] = json!(csum_ok);
+                        // multicast listener reports may carry the unspecified source (exempt in C10's statement)
+                        if (130..=132).contains(ty) || *ty == 143 {
+                            v["exempt"] = json!(true);
+                        }
+                    } else {
+                        v["l4"] = json!("other");
+                    }
+                } else {
+                    v["et"] = json!("ip4-bad");
+                }
             }
             _ => {
                 v["et"] = json!("other");
@@ -171,10 +290,20 @@ pub fn random(args: &Args) {
         let mut c = Config::new(HardwareAddress::Ethernet(EthernetAddress(MY_MAC)));
         c.random_seed = rng.next();
         let mut iface = Interface::new(c, &mut dev, Instant::from_millis(0));
+        // address family of the run: the same world over IPv4 / ARP or IPv6 / neighbour discovery
+        let v6 = rng.chance(50);
         iface.update_ip_addrs(|a| {
-            a.push(IpCidr::new(IpAddress::v4(10, 0, 0, 1), 24)).unwrap();
+            if v6 {
+                a.push(IpCidr::new(ip_of(MY_IP, true), 64)).unwrap();
+            } else {
+                a.push(IpCidr::new(IpAddress::v4(10, 0, 0, 1), 24)).unwrap();
+            }
         });
-        iface.routes_mut().add_default_ipv4_route(Ipv4Address::new(10, 0, 0, 254)).unwrap();
+        if v6 {
+            iface.routes_mut().add_default_ipv6_route(Ipv6Address::from_octets(a6(GW))).unwrap();
+        } else {
+            iface.routes_mut().add_default_ipv4_route(Ipv4Address::new(10, 0, 0, 254)).unwrap();
+        }
         let mut sockets = SocketSet::new(vec![]);
         let mut socks = vec![];
         let mut scfg = vec![];
@@ -208,8 +337,8 @@ pub fn random(args: &Args) {
             // 192.168.7.0/24 via on-link host 10.0.0.3 (possibly expiring)
             w.iface.routes_mut().update(|r| {
                 let _ = r.push(Route {
-                    cidr: IpCidr::Ipv4(Ipv4Cidr::new(Ipv4Address::new(192, 168, 7, 0), 24)),
-                    via_router: IpAddress::v4(10, 0, 0, 3),
+                    cidr: if v6 { IpCidr::Ipv6(Ipv6Cidr::new(Ipv6Address::from_octets(a6([192, 168, 7, 0])), 112)) } else { IpCidr::Ipv4(Ipv4Cidr::new(Ipv4Address::new(192, 168, 7, 0), 24)) },
+                    via_router: ip_of([10, 0, 0, 3], v6),
                     preferred_until: None,
                     expires_at: if route_exp >= 0 { Some(Instant::from_millis(route_exp)) } else { None },
                 });
@@ -220,7 +349,7 @@ pub fn random(args: &Args) {
         } else {
             json!([{"p":[0,0,0,0],"plen":0,"gw":[10,0,0,254],"exp":-1}])
         };
-        t.ev(json!({"ev":"reset","run":run,"world":"neigh","seed":seed0,"cfg":{"cache":cache,"mtu":1500,"my_ip":[10,0,0,1],"my_mac":mac_s(&MY_MAC),"net":[10,0,0],"socks":scfg,
+        t.ev(json!({"ev":"reset","run":run,"world":"neigh","seed":seed0,"cfg":{"cache":cache,"v6":v6,"mtu":1500,"my_ip":[10,0,0,1],"my_mac":mac_s(&MY_MAC),"net":[10,0,0],"socks":scfg,
             "routes":routes,"arp_delay":arp_delay.iter().map(|(k,v)| json!([k,v])).collect::<Vec<_>>()}}));
         let mut pending: Vec<(i64, Vec<u8>)> = vec![]; // frames to deliver to the interface at a given time
         let mut next_did = 1u32;
@@ -266,7 +395,7 @@ pub fn random(args: &Args) {
                 w.sizes.insert(did, size);
                 let data = dgram_payload(did, size);
                 let h = w.socks[k].h;
-                let r = w.sockets.get_mut::<udp::Socket>(h).send_slice(&data, IpEndpoint::new(IpAddress::v4(dst[0], dst[1], dst[2], dst[3]), 9000 + k as u16));
+                let r = w.sockets.get_mut::<udp::Socket>(h).send_slice(&data, IpEndpoint::new(ip_of(dst, v6), 9000 + k as u16));
                 let err = match r {
                     Ok(()) => "none",
                     Err(udp::SendError::BufferFull) => "full",
@@ -284,19 +413,24 @@ pub fn random(args: &Args) {
             // unsolicited / hostile traffic now and then
             if rng.chance(8) {
                 let h = rng.range(2, 12) as u8;
+                let disc = |sha: [u8; 6], spa: [u8; 4], op: u16, dm: [u8; 6]| if v6 { nd_msg(sha, spa, op, dm) } else { arp_reply(sha, spa, op, dm) };
                 let f = match rng.below(5) {
-                    0 => arp_reply(mac_of([10, 0, 0, h]), [10, 0, 0, h], 2, MY_MAC),                 // gratuitous but well-formed reply
-                    1 => arp_reply([2, 0, 0, 0, 9, 9], [192, 168, 1, 77], 2, MY_MAC),                   // spoofed: off-link sender
-                    2 => arp_reply([0xff; 6], [10, 0, 0, h], 2, MY_MAC),                                 // non-unicast hardware address
-                    3 => arp_reply(mac_of([10, 0, 0, h]), [10, 0, 0, h], 1, [0xff; 6]),                  // request for our address
+                    0 => disc(mac_of([10, 0, 0, h]), [10, 0, 0, h], 2, MY_MAC),                 // gratuitous but well-formed reply
+                    1 => disc([2, 0, 0, 0, 9, 9], [192, 168, 1, 77], 2, MY_MAC),                   // spoofed: off-link sender
+                    2 => disc([0xff; 6], [10, 0, 0, h], 2, MY_MAC),                                 // non-unicast hardware address
+                    3 => disc(mac_of([10, 0, 0, h]), [10, 0, 0, h], 1, [0xff; 6]),                  // request for our address
                     _ => {
                         // inbound datagram for one of the sockets (or a closed port)
                         let did = 100_000 + steps as u32;
                         let size = rng.range(4, 300) as usize;
                         w.sizes.insert(did, size);
                         let port = *rng.pick(&[6000u16, 6001, 6001, 6009]);
-                        let ip = ipv4_packet([10, 0, 0, h], MY_IP, 17, steps as u16, 64, &udp_datagram(5000 + h as u16, port, &dgram_payload(did, size)), true);
-                        eth_frame(MY_MAC, mac_of([10, 0, 0, h]), 0x0800, &ip)
+                        let u = udp_datagram(5000 + h as u16, port, &dgram_payload(did, size));
+                        if v6 {
+                            eth_frame(MY_MAC, mac_of([10, 0, 0, h]), 0x86dd, &ipv6_packet(a6([10, 0, 0, h]), a6(MY_IP), 17, 64, &u, true))
+                        } else {
+                            eth_frame(MY_MAC, mac_of([10, 0, 0, h]), 0x0800, &ipv4_packet([10, 0, 0, h], MY_IP, 17, steps as u16, 64, &u, true))
+                        }
                     }
                 };
                 due.push(f);
@@ -309,14 +443,29 @@ pub fn random(args: &Args) {
                     let did = 200_000 + steps as u32 * 8 + b as u32;
                     let size = rng.range(4, (w.socks[k].rxp as u64 * 2 / 3).max(5)) as usize;
                     w.sizes.insert(did, size);
-                    let ip = ipv4_packet([10, 0, 0, h], MY_IP, 17, steps as u16, 64, &udp_datagram(5000 + h as u16, 6000 + k as u16, &dgram_payload(did, size)), true);
-                    due.push(eth_frame(MY_MAC, mac_of([10, 0, 0, h]), 0x0800, &ip));
+                    let u = udp_datagram(5000 + h as u16, 6000 + k as u16, &dgram_payload(did, size));
+                    if v6 {
+                        due.push(eth_frame(MY_MAC, mac_of([10, 0, 0, h]), 0x86dd, &ipv6_packet(a6([10, 0, 0, h]), a6(MY_IP), 17, 64, &u, true)));
+                    } else {
+                        due.push(eth_frame(MY_MAC, mac_of([10, 0, 0, h]), 0x0800, &ipv4_packet([10, 0, 0, h], MY_IP, 17, steps as u16, 64, &u, true)));
+                    }
                 }
             }
             let budget = if rng.chance(25) { Some(rng.range(0, 2) as usize) } else { None };
             let Some(out) = w.poll(due, budget, &mut t) else { break };
             // the virtual stations react
             for f in &out {
+                if v6 && f.len() >= 14 + 40 + 24 && f[12] == 0x86 && f[13] == 0xdd && f[20] == 58 && f[54] == 135 {
+                    let tg = &f[62..78];
+                    if tg[..9] == [0xfd, 0, 0, 0, 0, 0, 0, 0, 0] && tg[9] == 10 && tg[11] == 0 && tg[13] == 0 {
+                        let tpa = [10, 0, 0, tg[15]];
+                        if let Some(d) = arp_delay.get(&tpa[3]) {
+                            if *d >= 0 {
+                                pending.push((w.now + *d, nd_msg(mac_of(tpa), tpa, 2, MY_MAC)));
+                            }
+                        }
+                    }
+                }
                 if f.len() >= 42 && f[12] == 8 && f[13] == 6 && f[21] == 1 {
                     let tpa = [f[38], f[39], f[40], f[41]];
                     if tpa[0] == 10 && tpa[1] == 0 && tpa[2] == 0 {
